@@ -6,6 +6,8 @@ package dastard
 // Compiled only with `-tags verif`; adds no behaviour to the normal build.
 
 import (
+	"fmt"
+	"os"
 	"path/filepath"
 	"strings"
 	"time"
@@ -28,6 +30,7 @@ type VerifC19Stream struct {
 type VerifC19Tables struct {
 	Rejected         bool
 	ConfigOnly       bool // the step was a Configure request only: Rejected says how it was answered, no tables
+	Active           []int // after a Lancero Configure request: device numbers of the active cards, in order
 	Nchan            int
 	ChannelsPerPixel int
 	Streams          []VerifC19Stream
@@ -121,6 +124,66 @@ func VerifC19LanceroSeq(steps []VerifC19LanceroStep) ([]VerifC19Tables, *AnySour
 		out = append(out, verifC19Tables(&ls.AnySource))
 	}
 	return out, &ls.AnySource
+}
+
+// VerifC19LanceroReq is one request to ONE LanceroSource: a Configure request (any ActiveCards list: unsorted,
+// with repeats, with cards that do not exist) or (Prepare) the table-building part of Start.
+type VerifC19LanceroReq struct {
+	Prepare                     bool
+	ActiveCards                 []int
+	FirstRow, SepCards, SepCols int
+}
+
+// VerifC19LanceroConfigureSeq creates a LanceroSource whose devices are avail (device number, columns; no
+// hardware), writes a cringeGlobals.json with SequenceLength nrows into dir and runs the requests through the REAL
+// LanceroSource.Configure; a Prepare request computes nchan as Sample does and calls the real PrepareChannels.
+func VerifC19LanceroConfigureSeq(nrows int, avail []VerifC19Dev, reqs []VerifC19LanceroReq, dir string) ([]VerifC19Tables, *AnySource, error) {
+	if err := os.MkdirAll(dir, 0755); err != nil {
+		return nil, nil, err
+	}
+	path := filepath.Join(dir, "cringeGlobals.json")
+	text := fmt.Sprintf(`{"SETT": 10, "seqln": %d, "lsync": 100, "testpattern": 0, "propagationdelay": 1, "NSAMP": 4, "carddelay": 1, "XPT": 0}`, nrows)
+	if err := os.WriteFile(path, []byte(text), 0644); err != nil {
+		return nil, nil, err
+	}
+	old := cringeGlobalsPath
+	cringeGlobalsPath = path
+	defer func() { cringeGlobalsPath = old }()
+
+	ls := new(LanceroSource)
+	ls.name = "Lancero"
+	ls.nsamp = 1
+	ls.devices = make(map[int]*LanceroDevice)
+	ls.channelsPerPixel = 2
+	ls.sampleRate = 10000
+	ls.samplePeriod = 100 * time.Microsecond
+	for _, d := range avail {
+		ls.devices[d.Devnum] = &LanceroDevice{devnum: d.Devnum, ncols: d.Ncols} // ncols: what sampleCard learns
+		ls.ncards++
+	}
+	var out []VerifC19Tables
+	for _, rq := range reqs {
+		if !rq.Prepare {
+			err := ls.Configure(&LanceroSourceConfig{ActiveCards: rq.ActiveCards, FirstRow: rq.FirstRow,
+				ChanSepCards: rq.SepCards, ChanSepColumns: rq.SepCols, CardDelay: []int{1}, FiberMask: 0xffff})
+			t := VerifC19Tables{ConfigOnly: true, Rejected: err != nil, Active: []int{}}
+			for _, dev := range ls.active {
+				t.Active = append(t.Active, dev.devnum)
+			}
+			out = append(out, t)
+			continue
+		}
+		ls.nchan = 0 // as LanceroSource.Sample
+		for _, dev := range ls.active {
+			ls.nchan += dev.ncols * dev.nrows * 2
+		}
+		if err := ls.PrepareChannels(); err != nil {
+			out = append(out, VerifC19Tables{Rejected: true})
+			continue
+		}
+		out = append(out, verifC19Tables(&ls.AnySource))
+	}
+	return out, &ls.AnySource, nil
 }
 
 // VerifC19Lancero is one configuration followed by calls-1 retries.
